@@ -396,6 +396,27 @@ def gen_mgr_local_midnight(rng):
     return with_zone(rng, {"def": {"min": 0, "hr": 0, "qh": rng.choice([0, 0, 9]), "qd": md}, "items": items}, z)
 
 
+def delete_policy_family():
+    """Fixed family (runs every time): a token with its own quota policy has used most of the period's
+    quota, the policy is deleted, and the token goes on querying in the same hour / UTC day under every
+    shape of config defaults (no quota, hourly only, daily only, both): the usage of the period must
+    survive the deletion whenever a default quota still applies."""
+    out = []
+    B = BASES[2] + 5 * HOUR + 7
+    for dflt in ({"qh": 0, "qd": 0}, {"qh": 5, "qd": 0}, {"qh": 0, "qd": 5}, {"qh": 5, "qd": 5}, {"qh": 3, "qd": 9}):
+        for pol in ({"qh": 5, "qd": 0}, {"qh": 0, "qd": 5}, {"qh": 4, "qd": 6}):
+            items, rid = [{"k": "set", "tok": 1, "p": dict({"min": 0, "hr": 0}, **pol)}], 0
+            for n, with_del in ((4, True), (10, False)):
+                for _ in range(n):
+                    rid += 1
+                    items += [{"k": "rate", "tok": 1, "rid": rid, "t": B}, {"k": "quota", "tok": 1, "rid": rid, "t": B}]
+                if with_del:
+                    items.append({"k": "del", "tok": 1})
+            items.append({"k": "usage", "tok": 1, "t": B})
+            out.append({"def": dict({"min": 0, "hr": 0}, **dflt), "items": items})
+    return out
+
+
 def gen_mgr(rng, i, prm):
     r0 = rng.random()
     if r0 < 0.07:
@@ -838,7 +859,7 @@ def run(res, tier, seed):
                 corpus.append(json.load(open(os.path.join(cdir, fn))))
     sw = wsw + [strip(c["case"]) for c in corpus if c.get("type") == "sw"] + [gen_sw(rng, i) for i in range(nsw)]
     qt = wqt + [strip(c["case"]) for c in corpus if c.get("type") == "qt"] + [gen_qt(rng, i) for i in range(nqt)]
-    mgr = wmg + [strip(c["case"]) for c in corpus if c.get("type") == "mg"] + [gen_mgr(rng, i, prm) for i in range(nmg)]
+    mgr = wmg + delete_policy_family() + [strip(c["case"]) for c in corpus if c.get("type") == "mg"] + [gen_mgr(rng, i, prm) for i in range(nmg)]
     first = first_trials(tier)
     run_impl(sw, qt, mgr, tier, prm, first=first)
     res.stage("impl_harness", t1)
